@@ -219,6 +219,7 @@ func runC05(c *kit.Ctx) {
 			c.Check(good, multiTP, "accumulate-pair", multiTP.Pos(), "blocks and size are accumulated from the same nested SerializeCellBlocks call", "multi.toProto no longer accumulates the cellblocks and their size from the same nested call")
 		}
 		cellblocksInActionOrder(c, multiTP)
+		serialisedCallGetsAction(c, multiTP)
 		// header meta
 		{
 			good := false
